@@ -115,7 +115,7 @@ ScalarDists == {"beta", "binomial", "categorical", "cauchy", "chiSquared", "delt
 VectorDists == {"vnormal", "vskewnormal", "vt", "logisticRegression", "scalarId", "scalarIid", "vmixture", "hmm"}
 MatrixDists == {"inverseWishart", "vectorId", "vectorIid"}   \* normalIWishart is not a MatrixPdf (other LogPdf signature)
 Estimators  == {"e.categorical", "e.delta", "e.exponential", "e.geometric", "e.negativeBinomial", "e.normal",
-                "e.poisson", "e.vnormal", "e.scalarId", "e.scalarIid", "e.mixture", "e.logisticRegression"}
+                "e.poisson", "e.vnormal", "e.scalarId", "e.scalarIid", "e.mixture"}
 DistEntry(name, ro, rw) == E("dist", name, ro, rw, <<>>, <<>>, NoIS, "")
 DistEntries == {
   DistEntry("dist.New",           <<"params">>,      <<>>),      \* the constructor call leaves its arguments unchanged
